@@ -71,6 +71,9 @@ SCENARIOS = {
     # a target fed by two nodes of one type; with >= 5 rows the merged edge group is sparse (index-based edge code)
     'fan-in': dict(map={'k': dict(vars=['o1/k'], nodes=['n0']), 'w': dict(vars=['weight'], edges=[('n1/o1/x', 'm0/li/u')])},
                    variant='fanin', rows=(5, 6)),
+    # a fine sweep: >= 10 rows (index-based edge code for the merged group) over weights that differ by 6e-8 each
+    'edge-weight-fine': dict(map={'w': dict(vars=['weight'], edges=[('n0/o1/x', 'n1/o1/u')])},
+                             values={'w': [F(35, 16) + F(i, 2 ** 24) for i in range(12)]}, rows=(10, 12)),
     # two parallel edges n0 -> n1; the sweep addresses the SECOND one by its index
     'parallel-edge-index': dict(map={'w': dict(vars=['weight'], edges=[('n0/o1/x', 'n1/o1/u', 1)])}, variant='parallel'),
     # sweep over a plain (ring-buffer) delay with a fixed step of 1/4: 1 step (neglected by a separate run), 3 and 5 steps
